@@ -843,16 +843,29 @@ def oracle_history(ctx: Ctx, sc: dict, tr: dict, full: bool = False) -> dict:
                          "pause: daemon not stopped", inc=i["inc"], t=lo)
                     break
         # nothing handled twice by one operator process
-        seen: dict[tuple, float] = {}
+        seen: dict[tuple, dict] = {}
         for c in calls_by_inc.get(i["inc"], []):
             if c["kind"] not in ("create", "update"):
                 continue
             key = (c["uid"], c["id"], c["x"] if c["kind"] == "update" else None)
             if key in seen:
-                fail(f"operator {i['name']} ran handler {c['id']} twice for the same change of {c['name']} (x={c['x']}): at {seen[key]} and {c['t']}",
-                     "handler executed twice for one change by one operator", inc=i["inc"], t=c["t"])
+                c0 = seen[key]
+                what = (f"operator {i['name']} ran handler {c['id']} twice for the same change of {c['name']} (x={c['x']}): "
+                        f"at {c0['t']} (until {c0.get('t_end')}) and at {c['t']}")
+                paused_between = any(v and c0["t"] <= t <= c["t"] for (t, v) in H.pz.get(i["inc"], []))
+                if c.get("rv") == c0.get("rv") and c0.get("t_end") is not None and c0["t_end"] <= c["t"] and paused_between:
+                    # the SAME version of the object, after the first run had ended, with a pause in between: a stale event queued
+                    # behind the first run, acted upon when the wait for the own patch's version timed out (it cannot arrive: the
+                    # pause has closed the stream)
+                    ctx.oracle_fail(what + f": the same resourceVersion {c.get('rv')}; the operator was paused in between, so its own patch "
+                                    f"(which records the success) was never seen, and after settings.persistence.consistency_timeout the "
+                                    f"stale queued event was handled as if it were consistent",
+                                    {"scenario": sc, "inc": i["inc"], "t": c["t"]},
+                                    {"site": "processing.consistency", "shape": "a handler that has succeeded is executed again after a pause (stale queued event, consistency timeout)"})
+                else:
+                    fail(what, "handler executed twice for one change by one operator", inc=i["inc"], t=c["t"])
                 break
-            seen[key] = c["t"]
+            seen[key] = c
 
     # ---- (H) STRICT: one change is not handled by two operators that both count as active -------------------------------
     # (also in the exit window, around every pause/resume, in every regime; tolerated only: the first one was killed, or
@@ -1269,7 +1282,8 @@ def run(ctx: Ctx) -> None:
             ctx.count("lts.stale_view", ("current" if req[1]["view"] == req[1]["current"] else
                                          "older, benign (inside the guard)" if m.get("benign") else
                                          "older, NOT benign (outside the guard): " + ("cleaning differs" if m.get("sameVerdict") else "verdict differs")))
-            m = {"status": m["status"], "paused": m["paused"]}
+            # (a call cancelled - operator torn down - after its clean() has landed but before the toggle: the write is compared)
+            m = {"status": m["status"], "paused": m["paused"] if impl.get("paused") is not None else None}
         ctx.compare("C13 transition system: " + ("write semantics" if req[0] == "C13.write" else "stale-view step"), impl, m, wh)
         ctx.case(key={"lts": req[0], "n": min(len(req[1]) if isinstance(req[1], list) else len(req[1]["current"]), 3)}, nontrivial=True)
     ctx.count("histories", "run", len(histories))
